@@ -702,9 +702,9 @@ def check_ho_kinds(run: Run, prog: Program) -> None:
     step list (a dangling operator: every evaluation raises, the engine never emits a sample)."""
     cls = prog.cls(f"{ENGINE}:_BaseHOFormulaBuilder")
     producers: list[FuncInfo] = []
-    for nm in ("_push", "consumption", "production", "__init__"):
-        m = prog.resolve_method(cls, nm)
-        if m is not None:
+    ph = push_helper(prog)
+    for m in [ph] + [prog.resolve_method(cls, nm) for nm in (*OPERATOR_METHODS.values(), "consumption", "production", "__init__")]:
+        if m is not None and not any(m is x for x in producers):
             producers.append(m)
             producers.extend(transitive_helpers(Flow(prog, m)))
     emitted = {n.attr for f_ in producers for n in ast.walk(f_.node) if isinstance(n, ast.Attribute) and u(n.value) == "TokenType"}
@@ -1192,6 +1192,31 @@ def same_value(a: Any, b: Any, seed: int = 5) -> tuple[bool, str]:
 OPERATOR_METHODS = {"+": "__add__", "-": "__sub__", "*": "__mul__", "/": "__truediv__", "max": "max", "min": "min"}
 
 
+def push_helper(prog: Program) -> FuncInfo | None:
+    """The operand-pushing helper of the composition API, bound by role: the private method of the HO-builder base class that
+    every public operator (`__add__` ... `min`) calls -- on self or on a clone of it -- with its own operator symbol and its
+    operand (`_push` is only the hint).  None when the operators do the pushing themselves."""
+    cls = prog.cls(f"{ENGINE}:_BaseHOFormulaBuilder")
+    common: set[str] | None = None
+    for sym, mname in OPERATOR_METHODS.items():
+        m = prog.resolve_method(cls, mname)
+        if m is None:
+            raise AnalysisError(f"{cls.qual}.{mname} not found")
+        operand = m.params[1] if len(m.params) > 1 else None
+        mine: set[str] = set()
+        for c in ast.walk(m.node):
+            if isinstance(c, ast.Call) and isinstance(c.func, ast.Attribute) and c.func.attr.startswith("_") and not c.func.attr.startswith("__") \
+                    and prog.resolve_method(cls, c.func.attr) is not None:
+                args = list(c.args) + [k.value for k in c.keywords]
+                if any(isinstance(a, ast.Constant) and a.value == sym for a in args) and any(isinstance(a, ast.Name) and a.id == operand for a in args):
+                    mine.add(c.func.attr)
+        common = mine if common is None else common & mine
+    if not common:
+        return None
+    name = "_push" if "_push" in common else sorted(common)[0]
+    return prog.resolve_method(cls, name)
+
+
 def _ho_method(prog: Program, name: str) -> FuncInfo:
     cls = prog.cls(f"{ENGINE}:_BaseHOFormulaBuilder")
     m = prog.resolve_method(cls, name)
@@ -1266,7 +1291,7 @@ VALUE_TEXT = ("expressions are values: `s = a + b; x = s * 2.0; y = s - c` must 
 
 
 def check_paren(run: Run, prog: Program) -> None:
-    push = prog.func(f"{ENGINE}:_BaseHOFormulaBuilder._push")
+    push = push_helper(prog) or _ho_method(prog, "__add__")  # (the anchor the chain findings are filed under)
     run.analysed(push.qual)
     mod = prog.module(ENGINE)
     OP = lambda s: ("TT.OPER", s)  # noqa: E731
@@ -1414,8 +1439,6 @@ def _check_chains(run: Run, prog: Program, push: FuncInfo, mod: Any, first_level
             return got, want, (f"the tokens {_fmt(got)} denote {tree_text(tree)}, not {tree_text(want)} (at {point})")
         return got, want, ""
 
-    if len(push.params) < 3:
-        raise AnalysisError(f"{push.qual}: expected (self, operator, operand)")
     shapes = ("engine", "quantity", "float", "builder#0", "builder#1", "builder#2")
     second: dict[tuple[str, str], list[Any]] = {}
     for op1 in ("+", "-", "*", "/", "max", "min"):
@@ -2836,12 +2859,21 @@ def _provider_findings(prog: Program, fl: Flow, d_nodes: set[int] | None = None)
             continue
         ktxt, vtxt, mtxt = u(key), u(val), m.id
 
+        map_nodes = {id(q.node) for q in fl.origin(m, sn, through_helpers=False) if q.kind == "expr" and q.node is not None}
+
         def is_pool(flow: Any, c: ast.AST, nid: int, name_txt: str, fuel: int = 4) -> bool:
             """`c` denotes the names in use: the live `M.values()` view (or a set / list / tuple made of it), directly, through a
             local or through a helper's parameter bound to it; or a collection the function itself adds every stored name to."""
             t = u(c).replace(" ", "")
             if t in (f"{mtxt}.values()", f"set({mtxt}.values())", f"list({mtxt}.values())", f"tuple({mtxt}.values())", f"frozenset({mtxt}.values())"):
                 return True
+            inner = c.args[0] if isinstance(c, ast.Call) and u(c.func) in ("set", "list", "tuple", "frozenset") and len(c.args) == 1 else c
+            if isinstance(inner, ast.Call) and isinstance(inner.func, ast.Attribute) and inner.func.attr == "values" and not inner.args \
+                    and isinstance(inner.func.value, ast.Name):
+                # `.values()` of the map under another name (a local alias, the parameter of a helper that was handed the map)
+                mo = flow.origin(inner.func.value, nid, through_helpers=False)
+                if mo and all(q.kind == "expr" and id(q.node) in map_nodes for q in mo):
+                    return True
             if isinstance(c, ast.Name) and c.id != mtxt:
                 if any(isinstance(x, ast.Call) and isinstance(x.func, ast.Attribute) and x.func.attr in ("add", "append") and u(x.func.value) == c.id
                        and len(x.args) == 1 and u(x.args[0]) == name_txt for x in ast.walk(flow.fn.node)):
@@ -3107,7 +3139,7 @@ def build_controls(prog: Program) -> list[tuple[str, str, str, str, str]]:
             break
     # PAREN: the left parenthesis around the current expression is dropped; a builder operand is not parenthesised
     ho = prog.cls(f"{ENGINE}:_BaseHOFormulaBuilder")
-    push = ho.methods.get("_push")
+    push = push_helper(prog)
     left = None
     for m in ([push] if push is not None else []) + [x for x in ho.methods.values() if x is not push]:
         for st in walk(m, ast.Expr):
